@@ -109,10 +109,17 @@ MANIFEST = {
 # ---------------------------------------------------------------------------------------------
 def val(j):
     if isinstance(j, dict):
-        return float(j["f"])
+        if "f" in j:
+            return float(j["f"])
+        return X.val(j)                      # {"c": [re, im]} complex | {"b": bool}   (entries gcascade / gcompile)
     if isinstance(j, str):
         return Fraction(j)
     return int(j)
+
+
+def genc(y):
+    """a python number (complex included) -> JSON as the driver prints Gaussian rationals"""
+    return X.genc(X.g_of(y)) if isinstance(y, complex) else enc(y)
 
 
 def tag(v):
@@ -124,7 +131,9 @@ def tag(v):
 
 
 def exact(j):
-    """tagged number -> what the driver gets (int or 'p/q', floats at their exact binary value)"""
+    """tagged number -> what the driver gets (int or 'p/q', floats at their exact binary value; complex: [re, im])"""
+    if isinstance(j, dict) and "f" not in j:
+        return X.exact(j)
     return enc(val(j))
 
 
@@ -478,12 +487,14 @@ def _xs_obj(xs, how):
 
 
 def impl(c):
-    if c["entry"] == "hist":
+    if c["entry"] in ("hist", "ghist"):
         return H.impl(c)
     if c["entry"] == "gcall":
         return X.impl(c)
-    if c["entry"] == "cascade":
+    if c["entry"] in ("cascade", "gcascade"):
         return impl_cascade(c)
+    if c["entry"] == "gcompile":
+        return impl_compile(c)
     return impl_call(c)
 
 
@@ -515,11 +526,37 @@ def impl_cascade(c):
         stage = "iter"
         out = list(cur)
         irs = [parse_source(src) for src in captured]
-        obs = {"out": [enc(y) for y in out], "n_exec": len(captured), "irs_equal": all(i == irs[0] for i in irs),
+        obs = {"out": [genc(y) for y in out], "n_exec": len(captured), "irs_equal": all(i == irs[0] for i in irs),
                "ir": irs[0] if irs else {"kind": "unparsed", "why": "no source captured"},
                "src": captured[0] if captured else None}
     except Exception as e:
         obs = {"err": err_kind(e), "stage": stage, "msg": str(e)[:80]}
+    finally:
+        lf._exec_eval = orig
+    return obs
+
+
+def impl_compile(c):
+    """T3 alone: the source `__call__` generates for the dense coefficient lists b, a (a[0] != 0, no trailing zero:
+    nothing is normalised or compacted on the way), against `compile b a zero` of the driver"""
+    import audiolazy.lazy_filters as lf
+    from audiolazy import ZFilter
+    captured = []
+    orig = lf._exec_eval
+
+    def spy(data, expr):
+        captured.append(data)
+        return orig(data, expr)
+
+    lf._exec_eval = spy
+    try:
+        filt = ZFilter([val(v) for v in c["b"]], [val(v) for v in c["a"]])
+        res = filt([], zero=val(c["zero"]))
+        list(res)
+        obs = {"n_exec": len(captured), "src": captured[-1] if captured else None,
+               "ir": parse_source(captured[-1]) if captured else {"kind": "unparsed", "why": "no source captured"}}
+    except Exception as e:
+        obs = {"err": err_kind(e), "msg": str(e)[:80]}
     finally:
         lf._exec_eval = orig
     return obs
@@ -585,12 +622,14 @@ def _mem_req(m):
 
 
 def request(c):
-    if c["entry"] == "hist":
+    if c["entry"] in ("hist", "ghist"):
         return H.request(c)
     if c["entry"] == "gcall":
         return X.request(c)
-    if c["entry"] == "cascade":
-        return {"entry": "cascade", "num": [[k, exact(v)] for k, v in c["num"]], "den": [[k, exact(v)] for k, v in c["den"]],
+    if c["entry"] == "gcompile":
+        return {"entry": "gcompile", "b": [exact(v) for v in c["b"]], "a": [exact(v) for v in c["a"]], "zero": exact(c["zero"])}
+    if c["entry"] in ("cascade", "gcascade"):
+        return {"entry": c["entry"], "num": [[k, exact(v)] for k, v in c["num"]], "den": [[k, exact(v)] for k, v in c["den"]],
                 "zero": exact(c["zero"]), "xs": [exact(x) for x in c["xs"]], "mems": [_mem_req(m) for m in c["mems"]]}
     r = {"entry": "call",
          "num": [[k, exact(v)] for k, v in c["num"]],
@@ -718,26 +757,34 @@ def _compare_cascade(c, io, drv):
     if k and (io["n_exec"] != k or not io["irs_equal"] or io["ir"] != model["ir"]):
         out.append(("model", "%d stage(s) generated %d source(s) (all equal: %s); impl IR %r, model IR %r" % (
             k, io["n_exec"], io["irs_equal"], _abbr(io["ir"]), _abbr(model["ir"]))))
-    got = [dec(v) for v in io["out"]]
+    D = X.gdec if c["entry"] == "gcascade" else dec
+    got = [D(v) for v in io["out"]]
     for kind, ref, what in (("model", model, "output differs from model"),
                             ("spec", spec, "the filter applied %d times to its own output violates the difference equation" % k)):
-        want = [dec(v) for v in ref["out"]]
+        want = [D(v) for v in ref["out"]]
         if len(got) != len(want):
             out.append((kind, "%s: length %d instead of %d" % (what, len(got), len(want))))
         else:
-            bad = [i for i, (g, w) in enumerate(zip(got, want)) if isinstance(g, float) or g != w]
+            bad = [i for i, (g, w) in enumerate(zip(got, want)) if g is None or isinstance(g, float) or g != w]
             if bad:
                 out.append((kind, "%s: y[%d] = %s instead of %s" % (what, bad[0], got[bad[0]], want[bad[0]])))
     return out
 
 
 def compare(c, io, drv):
-    if c["entry"] == "hist":
+    if c["entry"] in ("hist", "ghist"):
         return H.compare(c, io, drv)
     if c["entry"] == "gcall":
         return X.compare(c, io, drv)
-    if c["entry"] == "cascade":
+    if c["entry"] in ("cascade", "gcascade"):
         return _compare_cascade(c, io, drv)
+    if c["entry"] == "gcompile":
+        if "err" in io:
+            return [("model", "compile case raised %s (%s)" % (io["err"], io.get("msg")))]
+        if io.get("n_exec") != 1 or io["ir"] != drv["ir"]:
+            return [("model", "generated source differs from compile (dense lists b=%r a=%r zero=%r): impl IR %r, model IR %r; source:\n%s" % (
+                c["b"], c["a"], c["zero"], _abbr(io["ir"]), _abbr(drv["ir"]), io.get("src")))]
+        return []
     out = _compare_call(c, io, drv)
     if any(k == "spec" for k, _ in out) and not io.get("isolated") and _ISO_BUDGET[0] > 0:
         _ISO_BUDGET[0] -= 1
@@ -846,12 +893,14 @@ def _short_memory(c, model):
 
 
 def nontrivial(c, io):
-    if c["entry"] == "hist":
+    if c["entry"] in ("hist", "ghist"):
         return H.nontrivial(c, io)
     if c["entry"] == "gcall":
         return X.nontrivial(c, io)
-    if c["entry"] == "cascade":
+    if c["entry"] in ("cascade", "gcascade"):
         return "err" in io or (bool(io.get("out")) and len(c["mems"]) >= 2)
+    if c["entry"] == "gcompile":
+        return io.get("ir", {}).get("kind") in ("loop", "const")
     return "err" in io or bool(io.get("out"))
 
 
@@ -879,11 +928,13 @@ def _d4_prediction(c, model):
 
 
 def classify(c, io, drv):
-    if c["entry"] == "hist":
+    if c["entry"] in ("hist", "ghist"):
         return H.classify(c, io, drv)
     if c["entry"] == "gcall":
         return X.classify(c, io, drv)
-    if c["entry"] == "cascade":
+    if c["entry"] == "gcompile":
+        return "gcompile:" + ("raises-%s" % io["err"] if "err" in io else "ir-differs")
+    if c["entry"] in ("cascade", "gcascade"):
         ps = _compare_cascade(c, io, drv)
         if "err" in io:
             return "cascade:raises-%s-at-%s" % (io["err"], io.get("stage"))
@@ -1180,6 +1231,70 @@ def _gen_long(rng, tier, scale):
 ZERO_SPELLINGS = {"int": 0, "frac": "0/1", "float": {"f": 0.0}}
 
 
+def _gen_gcascade(rng, tier, scale):
+    """re-entrant use with COMPLEX coefficients (entry gcascade): one filter object applied 2-4 times to its own lazy
+    output; Gaussian-integer coefficients and data, gain 1 / -1 in every spelling (no division: complex doubles exact)"""
+    gi = X._c
+    pool = [0, 1, -1, gi(0, 1), gi(0, -1), gi(1, 1), 2, gi(0, 2), gi(1, 0), gi(-1, 0), gi(2, -1), {"b": True}, -2]
+    smp = lambda: gi(rng.randint(-3, 3), rng.randint(-3, 3)) if rng.random() < 0.75 else rng.randint(-5, 5)
+    out = []
+    for _ in range((120 if tier == "quick" else 1500) * scale):
+        route = rng.choice(["list", "list", "dict", "linear", "poly", "cast"])
+        lb, la = rng.choice([1, 2, 2, 3]), rng.choice([1, 2, 2, 3])
+        b = [rng.choice(pool) for _ in range(lb)]
+        a = [rng.choice([1, -1, gi(1, 0), gi(-1, 0), {"b": True}, {"f": 1.0}, "-1/1"])] + [rng.choice(pool) for _ in range(la - 1)]
+        num, den = [[k, v] for k, v in enumerate(b)], [[k, v] for k, v in enumerate(a)]
+        if route == "dict":
+            num = [[k, v] for k, v in num if val(v) != 0]
+            den = [[k, v] for k, v in den if val(v) != 0]
+        lm = _lm_of(den)
+        mems = []
+        for _ in range(rng.choice([2, 2, 3, 4])):
+            r = rng.random()
+            mems.append(None if r < 0.35 else
+                        {"kind": "iter", "vals": [smp() for _ in range(lm + rng.choice([0, 0, 1]))],
+                         "as": rng.choice(["list", "tuple", "gen", "stream", "deque"])} if r < 0.85 else
+                        {"kind": "callable", "form": "arith", "base": smp(), "step": smp()})
+        out.append({"entry": "gcascade", "route": route, "num": num, "den": den, "mems": mems,
+                    "zero": rng.choice([0, 0, gi(0, 0), 7, gi(2, -1)]),
+                    "xs": [smp() for _ in range(rng.choice([0, 1, 3, 5, 8]))],
+                    "xs_as": rng.choice(["list", "iter", "tuple", "gen", "stream"])})
+    return out
+
+
+def _gen_gcompile(rng, tier, scale):
+    """T3 on dense lists (entry gcompile): every spelling of the special values in every position of the numerator,
+    the feedback part and the gain, + random vectors over all pools, + the all-zero filter with every zero spelling"""
+    gi = X._c
+    nz = lambda v: not X.g_of(X.val(v)).is_zero()
+    out = []
+    zeros = [0, {"f": 0.0}, "0/1", gi(0, 0), {"b": False}, 7, gi(0, 1), gi(2, -1), "1/2", {"f": 0.5}, {"b": True}, -3, X.HUGE]
+    if scale == 1:
+        for sv in X.SPECIALS:
+            for side, k in (("b", 0), ("b", 1), ("b", 2), ("a", 1), ("a", 2), ("a", 0)):
+                b = [2, 3, gi(1, 1), 5]
+                a = [rng.choice([1, -1, 2, gi(0, 1), 1]), 3, gi(0, 2), -7]
+                if side == "a" and k == 0 and not nz(sv):
+                    continue
+                (b if side == "b" else a)[k] = sv
+                out.append({"entry": "gcompile", "b": b, "a": a, "zero": rng.choice(zeros)})
+        for z in zeros:                       # the all-zero filter: `yield {zero}`
+            out.append({"entry": "gcompile", "b": rng.choice([[], [0], [gi(0, 0), {"f": 0.0}]]),
+                        "a": [rng.choice([1, 2, gi(0, 1), -1])] + rng.choice([[], [0], [0, {"f": 0.0}]]), "zero": z})
+    for _ in range((150 if tier == "quick" else 3000) * scale):
+        pool = X.POOLS[rng.choice(["all", "all", "gaussint", "unit", "intbool", "huge", "dyadic", "frac"])]
+        b = [rng.choice(pool) for _ in range(rng.choice([0, 1, 2, 3, 5]))]
+        a = [rng.choice(pool) for _ in range(rng.choice([1, 2, 3, 4]))]
+        if b and not nz(b[-1]):
+            b[-1] = X._nz(rng, pool)
+        if not nz(a[-1]):
+            a[-1] = X._nz(rng, pool)
+        if not nz(a[0]):
+            a[0] = X._nz(rng, pool)
+        out.append({"entry": "gcompile", "b": b, "a": a, "zero": rng.choice(zeros)})
+    return out
+
+
 def _gen_free(rng, tier, scale):
     """all-zero numerators (every spelling and length, incl. none at all) x denominators of order >= 1 x memory kinds x
     zero values: the trivial `yield zero` generator must NOT be chosen; exact regime (int coefficients, Fraction data)"""
@@ -1317,6 +1432,8 @@ def generate(rng, tier, scale=1):
     cases.extend(_gen_free(r4, tier, scale))
     cases.extend(_gen_gain(r4, tier, scale))
     cases.extend(_gen_memread(r4, tier, scale))
+    cases.extend(_gen_gcascade(r4, tier, scale))
+    cases.extend(_gen_gcompile(r4, tier, scale))
     # long runs / large orders, then histories (own random streams: the batches above keep their draws)
     cases.extend(_gen_long(random.Random(rng.random()), tier, scale))
     cases.extend(H.generate(random.Random(rng.random()), tier, scale))
@@ -1330,11 +1447,19 @@ def generate(rng, tier, scale=1):
 # ---------------------------------------------------------------------------------------------
 def tally(eng, c, io):
     eng.count("entry", c["entry"] + ("/long" if c.get("long") else ""))
-    if c["entry"] == "hist":
+    if c["entry"] in ("hist", "ghist"):
         return H.tally(eng, c, io)
     if c["entry"] == "gcall":
         return X.tally(eng, c, io)
-    if c["entry"] == "cascade":
+    if c["entry"] == "gcompile":
+        ir = io.get("ir", {})
+        eng.count("gcompile_ir", ir.get("kind"))
+        if ir.get("kind") == "loop":
+            eng.count("gcompile_gain", ir["gain"][0] + (":complex" if len(ir["gain"]) > 1 and isinstance(ir["gain"][1], list) else ""))
+            for a in ir["sum"]:
+                eng.count("gcompile_atom", "%s:%s%s" % (a[-2], a[0], ":complex" if a[0] == "mul" and isinstance(a[1], list) else ""))
+        return
+    if c["entry"] in ("cascade", "gcascade"):
         eng.count("cascade_stages", len(c["mems"]))
         eng.count("cascade_memories", "+".join(sorted({"none" if m is None else m.get("as", m["kind"]) for m in c["mems"]})) or "-")
         eng.count("cascade_result", "error" if "err" in io else "outputs")
@@ -1403,7 +1528,7 @@ def _simplify_num(j):
 
 
 def shrink(c):
-    if c["entry"] == "hist":
+    if c["entry"] in ("hist", "ghist"):
         for d in H.shrink(c):
             yield d
         return
@@ -1411,7 +1536,17 @@ def shrink(c):
         for d in X.shrink(c):
             yield d
         return
-    if c["entry"] == "cascade":
+    if c["entry"] == "gcompile":
+        for side in ("b", "a"):
+            l = c[side]
+            for i in range(len(l)):
+                if len(l) > 1 and not (side == "a" and i == 0) and i < len(l) - 1:
+                    yield dict(c, **{side: l[:i] + l[i + 1:]})
+                for sv in X._simpler(l[i]):
+                    if not (X.g_of(X.val(sv)).is_zero() and (i == len(l) - 1 or (side == "a" and i == 0))):
+                        yield dict(c, **{side: l[:i] + [sv] + l[i + 1:]})
+        return
+    if c["entry"] in ("cascade", "gcascade"):
         ms = c["mems"]
         for i in range(len(ms)):
             yield dict(c, mems=ms[:i] + ms[i + 1:])
@@ -1580,7 +1715,7 @@ def neighbours(c):
         for d in X.neighbours(c):
             yield d
         return
-    if c["entry"] in ("hist", "cascade") or c.get("long"):
+    if c["entry"] in ("hist", "ghist", "cascade", "gcascade", "gcompile") or c.get("long"):
         return
     for side in ("num", "den"):
         ps = c[side]
